@@ -228,6 +228,12 @@ func c19Run(c *Case) (string, []Fail) {
 		}
 		cfg := p.Cfg
 		return ro.Gens[0].Records.Text(), append(ro.Fails, c19RecordOracle(ro.Gens[0].Recs, &cfg, ro.Gens[0].Records)...)
+	case 3:
+		if len(c.Z) < 6 {
+			return "badcase", nil
+		}
+		_, out, fails := c19RunBufPlan(c19MakeBufPlan(uint64(c.Z[0]), int(c.Z[1])), [6]int64{c.Z[0], c.Z[1], 0, 0, 0, 0})
+		return out, fails
 	case 2:
 		if len(c.Z) < 6 {
 			return "badcase", nil
@@ -323,7 +329,30 @@ func c19Gen(g *Gen) {
 		}
 	}
 	g.dist["light-key-tuple-pairs"] = ncol
-	// ---- (c) generated end-to-end scenarios ----
+	// ---- (c) scripted buffer: drops, corrupted file, no directory (kind 3) ----
+	nb := g.Pick(120, 2500)
+	for i := 0; i < nb; i++ {
+		pl := c19MakeBufPlan(g.Seed, i)
+		z, out, fails := c19RunBufPlan(pl, [6]int64{int64(g.Seed), int64(i), 0, 0, 0, 0})
+		d := &c19Derived{kind: 3, z: z, out: out, fails: fails}
+		c19Queue(d)
+		c19Flush(g)
+		switch {
+		case pl.NoDir:
+			g.Count("buf-script-no-dir")
+		case pl.Quota < 1<<30:
+			g.Count("buf-script-tight-quota")
+		default:
+			g.Count("buf-script-plain")
+		}
+		if len(pl.Before) > 0 {
+			g.Count("buf-script-recovered-files")
+		}
+		if strings.Contains(out, ",0;f=") == false && strings.HasPrefix(out, "ok:") {
+			g.Count("buf-script-with-persistent")
+		}
+	}
+	// ---- (d) generated end-to-end scenarios ----
 	n := g.Pick(45, 600)
 	for i := 0; i < n; i++ {
 		g.Case(9, nil, []int64{int64(g.Seed), int64(i)})
